@@ -325,3 +325,120 @@ func init() {
 	I("errors.Is", isErr)
 	I("github.com/pkg/errors.Is", isErr)
 }
+
+// ---- *os.File over the in-memory file system (OpenFile / Create / Open, Write, Read, Sync, Close, Truncate)
+type fsFile struct {
+	n      *fsNode
+	pos    int
+	app    bool
+	closed bool
+}
+
+func init() {
+	I := func(name string, h intrinsic) { intrinsics[name] = h }
+	const (
+		oWRONLY = 0x1
+		oRDWR   = 0x2
+		oAPPEND = 0x400
+		oCREATE = 0x40
+		oEXCL   = 0x80
+		oTRUNC  = 0x200
+	)
+	open := func(e *Engine, fr *frame, p string, flag int) Value {
+		f := e.fs()
+		ap := f.abs(p)
+		n := f.nodes[ap]
+		if p == "" {
+			return Tuple{(*Value)(nil), enoent(e, "open", p)}
+		}
+		if n == nil || !n.exists {
+			if flag&oCREATE == 0 {
+				return Tuple{(*Value)(nil), enoent(e, "open", p)}
+			}
+			dir := ap[:strings.LastIndex(ap, "/")]
+			if dir == "" {
+				dir = "/"
+			}
+			if d := f.nodes[dir]; d == nil || !d.exists || !d.isDir {
+				return Tuple{(*Value)(nil), enoent(e, "open", p)}
+			}
+			n = &fsNode{exists: true}
+			f.nodes[ap] = n
+			n.mtime = intrinsics["time.Now"](e, fr, nil)
+		} else if flag&oEXCL != 0 && flag&oCREATE != 0 {
+			return Tuple{(*Value)(nil), mkErr("open "+p+": file exists", nil)}
+		}
+		if flag&oTRUNC != 0 {
+			n.data = nil
+			n.mtime = intrinsics["time.Now"](e, fr, nil)
+		}
+		var cell Value = &fsFile{n: n, app: flag&oAPPEND != 0}
+		return Tuple{&cell, Iface{}}
+	}
+	I("os.OpenFile", func(e *Engine, fr *frame, a []Value) Value {
+		fl := a[1].(Term)
+		if !fl.IsConst() {
+			unsupported("os.OpenFile with symbolic flags")
+		}
+		return open(e, fr, concreteStr(a[0]), fl.Int())
+	})
+	I("os.Create", func(e *Engine, fr *frame, a []Value) Value { return open(e, fr, concreteStr(a[0]), oRDWR|oCREATE|oTRUNC) })
+	I("os.Open", func(e *Engine, fr *frame, a []Value) Value { return open(e, fr, concreteStr(a[0]), 0) })
+	file := func(v Value) *fsFile { return (*(v.(*Value))).(*fsFile) }
+	write := func(e *Engine, fr *frame, a []Value) Value {
+		f := file(a[0])
+		var src []Value
+		switch x := a[1].(type) {
+		case Slice:
+			src = x.a
+		default:
+			for _, b := range strBytes(x) {
+				src = append(src, b)
+			}
+		}
+		if f.closed {
+			return Tuple{BV(64, 0), mkErr("write: file already closed", nil)}
+		}
+		if f.app {
+			f.pos = len(f.n.data)
+		}
+		for i, b := range src {
+			if f.pos+i < len(f.n.data) {
+				f.n.data[f.pos+i] = b
+			} else {
+				f.n.data = append(f.n.data, b)
+			}
+		}
+		f.pos += len(src)
+		f.n.mtime = intrinsics["time.Now"](e, fr, nil)
+		return Tuple{BV(64, int64(len(src))), Iface{}}
+	}
+	I("(*os.File).Write", write)
+	I("(*os.File).WriteString", write)
+	I("(*os.File).Sync", func(e *Engine, fr *frame, a []Value) Value { return Iface{} })
+	I("(*os.File).Close", func(e *Engine, fr *frame, a []Value) Value { file(a[0]).closed = true; return Iface{} })
+	I("(*os.File).Truncate", func(e *Engine, fr *frame, a []Value) Value {
+		f := file(a[0])
+		sz := a[1].(Term)
+		if !sz.IsConst() || sz.Int() > len(f.n.data) {
+			unsupported("(*os.File).Truncate to a symbolic or larger size")
+		}
+		f.n.data = f.n.data[:sz.Int()]
+		return Iface{}
+	})
+	I("(*os.File).Read", func(e *Engine, fr *frame, a []Value) Value {
+		f := file(a[0])
+		dst := a[1].(Slice)
+		n := 0
+		for n < len(dst.a) && f.pos < len(f.n.data) {
+			dst.a[n] = f.n.data[f.pos]
+			n++
+			f.pos++
+		}
+		if n == 0 && len(dst.a) > 0 {
+			return Tuple{BV(64, 0), e.ioEOF()}
+		}
+		return Tuple{BV(64, int64(n)), Iface{}}
+	})
+	I("(*os.File).Name", func(e *Engine, fr *frame, a []Value) Value { return "file" })
+}
